@@ -268,7 +268,7 @@ def run_pipeline(case, res):
                 state['skipped'] += 1
         return True
 
-    wrapped = icontract.ensure(simplify_preserves_value,
+    wrapped = icontract.ensure(monitor.safe(simplify_preserves_value),
                                error=monitor.PropertyViolation)(
         simplify_mod.simplify)
     undo = monitor.rebind(simplify_mod, 'simplify', wrapped)
@@ -283,6 +283,9 @@ def run_pipeline(case, res):
     res.nontrivial = state['merged'] > 0
     res.fingerprint = fp('pipeline', case['pipeline'])
     res.observed = dict(state)
+    if monitor.ERRORS:
+        res.status = 'harness_error'
+        res.detail = monitor.ERRORS[0]
     if violations:
         res.violation(violations[0])
 
